@@ -39,34 +39,50 @@ TRUSTED = ["harness/detspace.py, harness/isr_explicit.py (independent "
            "not a proof over all Hamiltonians"]
 ASSUMPTIONS = [
     "mp partitioning, canonical HF reference",
-    "blocks/orders: quick pp ph,ph 0-2; ph,pphh and pphh,ph 1; pphh,pphh 0; "
-    "ip h,h and ea p,p 0-2; thorough adds ph,ph 3, ip/ea couplings to "
-    "hhp/pph order 1 and their diagonal order 0, dip/dea order <= 1; "
+    "blocks/orders: quick: lowest diagonal block orders 0-2 (dip/dea 0-1) "
+    "and both coupling blocks to the first satellite class orders 1-2 for "
+    "pp/ip/ea/dip/dea, pp pphh,pphh 0; thorough adds ph,ph 3, satellite "
+    "diagonal blocks orders 0-1, dip/dea lowest block order 2; "
     "subtract_gs=False on the same instance for the lowest diagonal block "
     "(quick orders 0 and 2, thorough all)",
     "partial: the general statement for all orders is not a Coq theorem; "
     "the Wick step of every matrix element is covered by C01",
 ]
 
-NAMES = {"ph": ("ia", "kc"), "pphh": ("ijab", "klcd"), "h": ("i", "k"),
-         "p": ("a", "c"), "hhp": ("ija", "klc"), "pph": ("iab", "kcd"),
-         "hh": ("ij", "kl"), "pp": ("ab", "cd")}
+def _names(space):
+    """(bra names, ket names) of an excitation class: disjoint letters"""
+    no, nv = space.count("h"), space.count("p")
+    return ("ijk"[:no] + "abc"[:nv], "lmn"[:no] + "def"[:nv])
+
+
+NAMES = {sp: _names(sp) for sp in (
+    "ph", "pphh", "ppphhh", "h", "hhp", "hhhpp", "p", "pph", "ppphh", "hh",
+    "hhhp", "pp", "ppph")}
 
 
 def plan(quick):
     P_ = [("pp", "ph", "ph", 0), ("pp", "ph", "ph", 1), ("pp", "ph", "ph", 2),
           ("pp", "ph", "pphh", 1), ("pp", "pphh", "ph", 1),
+          ("pp", "ph", "pphh", 2), ("pp", "pphh", "ph", 2),
           ("pp", "pphh", "pphh", 0),
           ("ip", "h", "h", 0), ("ip", "h", "h", 1), ("ip", "h", "h", 2),
-          ("ea", "p", "p", 0), ("ea", "p", "p", 1), ("ea", "p", "p", 2)]
+          ("ea", "p", "p", 0), ("ea", "p", "p", 1), ("ea", "p", "p", 2),
+          ("ip", "h", "hhp", 1), ("ip", "hhp", "h", 1),
+          ("ip", "h", "hhp", 2), ("ip", "hhp", "h", 2),
+          ("ea", "p", "pph", 1), ("ea", "pph", "p", 1),
+          ("ea", "p", "pph", 2), ("ea", "pph", "p", 2),
+          ("dip", "hh", "hh", 0), ("dip", "hh", "hh", 1),
+          ("dea", "pp", "pp", 0), ("dea", "pp", "pp", 1),
+          ("dip", "hh", "hhhp", 1), ("dip", "hhhp", "hh", 1),
+          ("dip", "hh", "hhhp", 2), ("dip", "hhhp", "hh", 2),
+          ("dea", "pp", "ppph", 1), ("dea", "ppph", "pp", 1),
+          ("dea", "pp", "ppph", 2), ("dea", "ppph", "pp", 2)]
     if not quick:
         P_ += [("pp", "ph", "ph", 3), ("pp", "pphh", "pphh", 1),
-               ("pp", "ph", "pphh", 2), ("pp", "pphh", "ph", 2),
-               ("ip", "h", "hhp", 1), ("ip", "hhp", "h", 1),
-               ("ip", "hhp", "hhp", 0), ("ea", "p", "pph", 1),
-               ("ea", "pph", "p", 1), ("ea", "pph", "pph", 0),
-               ("dip", "hh", "hh", 0), ("dip", "hh", "hh", 1),
-               ("dea", "pp", "pp", 0), ("dea", "pp", "pp", 1)]
+               ("ip", "hhp", "hhp", 0), ("ea", "pph", "pph", 0),
+               ("ip", "hhp", "hhp", 1), ("ea", "pph", "pph", 1),
+               ("dip", "hh", "hh", 2), ("dea", "pp", "pp", 2),
+               ("dip", "hhhp", "hhhp", 0), ("dea", "ppph", "ppph", 0)]
     return P_
 
 
@@ -114,125 +130,26 @@ def run(ctx):
                                "block_order": {str(k): v
                                                for k, v in bo.items()}}, True)
 
-    # ---- (i) explicit intermediate states -------------------------------
-    n_models = 1 if quick else 2
-    exprs = {}
-    for mi in range(n_models):
-        space = detspace.Space(3, 3, rng.randrange(1 << 30), canonical=True)
-        E, psi = space.rspt("mp", max_order)
-        model = make_model(space, psi)
-        isrs = {}
-        for variant, bs, ks, order in todo:
-            if variant not in isrs:
-                t0 = time.time()
-                isrs[variant] = isr_explicit.ISR(space, psi, E, variant,
-                                                 max_order, n_classes=2)
-                ctx.note(f"explicit ISR {variant}: {time.time() - t0:.1f}s")
-            X = isrs[variant]
-            if bs not in X.classes or ks not in X.classes:
-                continue
-            key = (variant, bs, ks, order)
-            if key not in exprs:
-                t0 = time.time()
-                try:
-                    exprs[key] = mats[variant].isr_matrix_block(
-                        order, f"{bs},{ks}", NAMES[bs][0] + "," + NAMES[ks][1])
-                except Exception as ex:
-                    ctx.violation(f"C03:block-exception:{key}",
-                                  f"isr_matrix_block raised {ex!r}", {}, False)
-                    exprs[key] = None
-                ctx.note(f"derive {key}: {time.time() - t0:.1f}s")
-            expr = exprs[key]
-            if expr is None:
-                continue
-            bo, bv = split(bs, NAMES[bs][0])
-            ko, kv = split(ks, NAMES[ks][1])
-            pairs = [(I, J) for I in range(len(X.configs[bs]))
-                     for J in range(len(X.configs[ks]))]
-            n_s = 6 if quick else 14
-            if len(pairs) > n_s:
-                # prefer pairs of configurations that share orbitals (delta
-                # terms only show there), plus a few arbitrary ones
-                def shared(IJ):
-                    (o1, v1), (o2, v2) = X.configs[bs][IJ[0]], \
-                        X.configs[ks][IJ[1]]
-                    return len(set(o1) & set(o2)) + len(set(v1) & set(v2))
-                ranked = sorted(pairs, key=lambda IJ: -shared(IJ))
-                top = ranked[:max(1, len(ranked) // 4)]
-                pairs = rng.sample(top, min(len(top), n_s - 2)) + \
-                    rng.sample(pairs, 2)
-            # the same instance asked with subtract_gs=False after the
-            # default: lowest diagonal block (the two differ by E0^(n) on the
-            # diagonal)
-            lowest = isr_explicit.CLASSES[variant][0][0]
-            if bs == ks == lowest and (not quick or order in (0, 2)):
-                ukey = key + ("unshifted",)
-                if ukey not in exprs:
-                    try:
-                        exprs[ukey] = mats[variant].isr_matrix_block(
-                            order, f"{bs},{ks}",
-                            NAMES[bs][0] + "," + NAMES[ks][1],
-                            subtract_gs=False)
-                    except Exception as ex:
-                        ctx.violation(f"C03:block-exception:{ukey}",
-                                      f"isr_matrix_block raised {ex!r}", {},
-                                      False)
-                        exprs[ukey] = None
-                if exprs[ukey] is not None:
-                    diag = [(I, I) for I in range(len(X.configs[bs]))]
-                    for I, J in rng.sample(diag, 2) + pairs[:2]:
-                        (oi, vi), (oj, vj) = X.configs[bs][I], \
-                            X.configs[ks][J]
-                        val = evaluate(model, exprs[ukey], bo + bv + ko + kv,
-                                       list(oi) + list(vi) + list(oj)
-                                       + list(vj))
-                        want = X.secular(bs, I, ks, J,
-                                         subtract_gs=False)[order]
-                        ctx.case(key=(ukey, space.seed, I, J),
-                                 nontrivial=True,
-                                 kind=f"{variant}:{bs},{ks}:{order}:unshifted")
-                        if not ctx.obligation(
-                                f"{variant} M^({order})[{bs},{ks}] "
-                                f"subtract_gs=False {oi}{vi}|{oj}{vj} (model "
-                                f"{space.seed})", val == want):
-                            ctx.violation(
-                                f"C03:secular-unshifted:{variant}:{bs},{ks}:"
-                                f"order{order}",
-                                "secular matrix element requested with "
-                                "subtract_gs=False (after the default request "
-                                "on the same instance) differs from <I|H|J> "
-                                "between explicitly constructed intermediate "
-                                "states",
-                                {"variant": variant, "block": f"{bs},{ks}",
-                                 "order": order, "subtract_gs": False,
-                                 "bra": (oi, vi), "ket": (oj, vj),
-                                 "model": {"nocc": 3, "nvirt": 3,
-                                           "seed": space.seed},
-                                 "derived": val, "explicit": want}, True)
-            for I, J in pairs:
-                (oi, vi), (oj, vj) = X.configs[bs][I], X.configs[ks][J]
-                val = evaluate(model, expr, bo + bv + ko + kv,
-                               list(oi) + list(vi) + list(oj) + list(vj))
-                want = X.secular(bs, I, ks, J)[order]
-                ok = val == want
-                ctx.case(key=(key, space.seed, I, J),
-                         nontrivial=order >= 1 or bs != ks,
-                         sample={"variant": variant, "block": f"{bs},{ks}",
-                                 "order": order, "bra": (oi, vi),
-                                 "ket": (oj, vj), "value_mod_P": val},
-                         kind=f"{variant}:{bs},{ks}:{order}")
-                if not ctx.obligation(
-                        f"{variant} M^({order})[{bs},{ks}] {oi}{vi}|{oj}{vj} "
-                        f"(model {space.seed})", ok):
-                    ctx.violation(
-                        f"C03:secular:{variant}:{bs},{ks}:order{order}",
-                        "derived secular matrix element differs from "
-                        "<I|H-E0|J> between explicitly constructed "
-                        "intermediate states",
-                        {"variant": variant, "block": f"{bs},{ks}",
-                         "order": order, "bra": (oi, vi), "ket": (oj, vj),
-                         "model": {"nocc": 3, "nvirt": 3, "seed": space.seed},
-                         "derived": val, "explicit": want}, True)
+    # ---- (i) explicit intermediate states (one worker per block) ---------
+    seeds = [rng.randrange(1 << 30) for _ in range(1 if quick else 2)]
+    import concurrent.futures as cf
+    import multiprocessing as mp_
+    with cf.ProcessPoolExecutor(max_workers=12,
+                                mp_context=mp_.get_context("fork")) as ex:
+        results = list(ex.map(_job, [(t, seeds, quick, max_order,
+                                      rng.randrange(1 << 30))
+                                     for t in todo]))
+    for res in results:
+        for r in res:
+            if r["type"] == "note":
+                ctx.note(r["text"])
+            elif r["type"] == "exception":
+                ctx.violation(r["key"], r["what"], {}, False)
+            else:
+                ctx.case(key=tuple(r["case_key"]), nontrivial=r["nontrivial"],
+                         kind=r["kind"], sample=r.get("sample"))
+                if not ctx.obligation(r["name"], r["ok"]):
+                    ctx.violation(r["key"], r["what"], r["replay"], True)
 
     # ---- (ii) transposition, (iii) matrix-vector product (all models) ------
     pairs = []
@@ -284,6 +201,103 @@ def run(ctx):
                 "prefactor * block * amplitude vector",
                 {"relation": p.label, "difference": p.diff, "error": p.err,
                  "case": EQ.describe(p, 800)}, p.diff is not None)
+
+
+def _job(arg):
+    """derive one secular-matrix block and compare it with the explicit
+    construction on the model Hamiltonians; runs in a worker process"""
+    (variant, bs, ks, order), seeds, quick, max_order, rseed = arg
+    import random
+    rng = random.Random(rseed)
+    out = []
+    key = (variant, bs, ks, order)
+    gs = adcgen.GroundState(adcgen.Operators())
+    mat = adcgen.SecularMatrix(adcgen.IntermediateStates(gs, variant))
+    names = NAMES[bs][0] + "," + NAMES[ks][1]
+    t0 = time.time()
+    try:
+        expr = mat.isr_matrix_block(order, f"{bs},{ks}", names)
+    except Exception as ex:
+        return [{"type": "exception", "key": f"C03:block-exception:{key}",
+                 "what": f"isr_matrix_block raised {ex!r}"}]
+    out.append({"type": "note",
+                "text": f"derive {key}: {time.time() - t0:.1f}s"})
+    # the same instance asked with subtract_gs=False after the default:
+    # lowest diagonal block (the two differ by E0^(n) on the diagonal)
+    lowest = isr_explicit.CLASSES[variant][0][0]
+    uexpr = None
+    if bs == ks == lowest and (not quick or order in (0, 2)):
+        try:
+            uexpr = mat.isr_matrix_block(order, f"{bs},{ks}", names,
+                                         subtract_gs=False)
+        except Exception as ex:
+            out.append({"type": "exception",
+                        "key": f"C03:block-exception:{key}:unshifted",
+                        "what": f"isr_matrix_block raised {ex!r}"})
+    bo, bv = split(bs, NAMES[bs][0])
+    ko, kv = split(ks, NAMES[ks][1])
+    for seed in seeds:
+        space = detspace.Space(3, 3, seed, canonical=True)
+        E, psi = space.rspt("mp", max_order)
+        model = make_model(space, psi)
+        X = isr_explicit.ISR(space, psi, E, variant, max_order, n_classes=2)
+        if bs not in X.classes or ks not in X.classes:
+            continue
+        mdl = {"nocc": 3, "nvirt": 3, "seed": seed}
+        pairs = [(I, J) for I in range(len(X.configs[bs]))
+                 for J in range(len(X.configs[ks]))]
+        n_s = 6 if quick else 14
+        if len(pairs) > n_s:
+            # prefer pairs of configurations that share orbitals (delta
+            # terms only show there), plus a few arbitrary ones
+            def shared(IJ):
+                (o1, v1), (o2, v2) = X.configs[bs][IJ[0]], \
+                    X.configs[ks][IJ[1]]
+                return len(set(o1) & set(o2)) + len(set(v1) & set(v2))
+            ranked = sorted(pairs, key=lambda IJ: -shared(IJ))
+            top = ranked[:max(1, len(ranked) // 4)]
+            pairs = rng.sample(top, min(len(top), n_s - 2)) + \
+                rng.sample(pairs, 2)
+        todo_ = [(I, J, True) for I, J in pairs]
+        if uexpr is not None:
+            diag = [(I, I) for I in range(len(X.configs[bs]))]
+            todo_ += [(I, J, False)
+                      for I, J in rng.sample(diag, min(2, len(diag)))
+                      + pairs[:2]]
+        for I, J, shifted in todo_:
+            (oi, vi), (oj, vj) = X.configs[bs][I], X.configs[ks][J]
+            val = evaluate(model, expr if shifted else uexpr,
+                           bo + bv + ko + kv,
+                           list(oi) + list(vi) + list(oj) + list(vj))
+            want = X.secular(bs, I, ks, J, subtract_gs=shifted)[order]
+            tag = "" if shifted else ":unshifted"
+            out.append({
+                "type": "case",
+                "case_key": (key, seed, I, J, shifted),
+                "nontrivial": order >= 1 or bs != ks or not shifted,
+                "kind": f"{variant}:{bs},{ks}:{order}{tag}",
+                "sample": {"variant": variant, "block": f"{bs},{ks}",
+                           "order": order, "bra": (oi, vi), "ket": (oj, vj),
+                           "subtract_gs": shifted, "value_mod_P": val},
+                "name": f"{variant} M^({order})[{bs},{ks}]{tag} "
+                        f"{oi}{vi}|{oj}{vj} (model {seed})",
+                "ok": val == want,
+                "key": (f"C03:secular:{variant}:{bs},{ks}:order{order}"
+                        if shifted else
+                        f"C03:secular-unshifted:{variant}:{bs},{ks}:"
+                        f"order{order}"),
+                "what": "derived secular matrix element differs from "
+                        "<I|H-E0|J> between explicitly constructed "
+                        "intermediate states" if shifted else
+                        "secular matrix element requested with "
+                        "subtract_gs=False (after the default request on "
+                        "the same instance) differs from <I|H|J> between "
+                        "explicitly constructed intermediate states",
+                "replay": {"variant": variant, "block": f"{bs},{ks}",
+                           "order": order, "subtract_gs": shifted,
+                           "bra": (oi, vi), "ket": (oj, vj), "model": mdl,
+                           "derived": val, "explicit": want}})
+    return out
 
 
 def replay(ctx, rep):
